@@ -166,6 +166,23 @@ func (dc *DCase) writerFor(w *planWriter) io.Writer {
 	return w
 }
 
+// callerCopy returns a copy of p with spare capacity, as a caller's scratch
+// slice has it; scribble overwrites the copy (and its spare capacity) after
+// the call: a decoder that kept the caller's slice instead of copying it then
+// shows the garbage in its output.
+func callerCopy(p []byte) []byte {
+	c := make([]byte, len(p), len(p)+16)
+	copy(c, p)
+	return c
+}
+
+func scribble(p []byte) {
+	p = p[:cap(p)]
+	for i := range p {
+		p[i] ^= 0x5a
+	}
+}
+
 // DFail is a failed check of the decoder executor.
 type DFail struct {
 	Check string // check id, see the list in DESIGN.md
@@ -438,11 +455,12 @@ func (r *DRun) stepBuffer(i int, op *DOp) {
 	case "write":
 		var n int
 		var err error
-		arg := append([]byte(nil), op.Data...)
+		arg := callerCopy(op.Data)
 		if pv := call(func() { n, err = b.Write(arg) }); pv != nil {
 			r.failf(i, "panic", "panic-Write", "%s", fmtPanic(pv))
 			return
 		}
+		scribble(arg)
 		switch {
 		case err == nil:
 			if n != len(op.Data) {
@@ -518,7 +536,7 @@ func (r *DRun) stepBuffer(i int, op *DOp) {
 		}
 	case "block":
 		seqs, bad := r.resolve(op)
-		lits := append([]byte(nil), op.Data...)
+		lits := callerCopy(op.Data)
 		seqArg := append([]lz.Seq(nil), seqs...)
 		var n, k, l int
 		var err error
@@ -527,6 +545,11 @@ func (r *DRun) stepBuffer(i int, op *DOp) {
 			return
 		}
 		r.afterBlock(i, op, seqs, bad, lits, seqArg, n, k, l, err, false)
+		// the block memory belongs to the caller again (parsers reuse it)
+		scribble(lits)
+		for j := range seqArg {
+			seqArg[j] = lz.Seq{LitLen: 0xdead, MatchLen: 0xbeef, Offset: 1}
+		}
 		if r.fail != nil {
 			return
 		}
@@ -864,10 +887,11 @@ func (r *DRun) stepDecoder(i int, op *DOp) {
 		for try := 0; ; try++ {
 			var n int
 			var err error
-			arg := append([]byte(nil), p...)
+			arg := callerCopy(p)
 			if !r.decCall(i, "Write", len(p), func() { n, err = d.Write(arg) }) {
 				return
 			}
+			scribble(arg)
 			if n < 0 || n > len(p) {
 				r.failf(i, "count-n", "Decoder.Write-n", "Decoder.Write of %d bytes returned n=%d", len(p), n)
 				return
@@ -901,7 +925,7 @@ func (r *DRun) stepDecoder(i int, op *DOp) {
 		seqs, bad := r.resolve(op)
 		lits := op.Data
 		for try := 0; ; try++ {
-			la := append([]byte(nil), lits...)
+			la := callerCopy(lits)
 			sa := append([]lz.Seq(nil), seqs...)
 			var n, k, l int
 			var err error
@@ -917,6 +941,11 @@ func (r *DRun) stepDecoder(i int, op *DOp) {
 			sub := &DOp{K: "block", Data: lits, Seqs: nil, Hostile: op.Hostile}
 			pre := len(m.Out)
 			r.afterBlock(i, sub, seqs, bad, la, sa, n, k, l, err, true)
+			// the block memory belongs to the caller again (parsers reuse it)
+			scribble(la)
+			for j := range sa {
+				sa[j] = lz.Seq{LitLen: 0xdead, MatchLen: 0xbeef, Offset: 1}
+			}
 			if r.fail != nil {
 				return
 			}
